@@ -3,6 +3,7 @@ import Octo.Model.Addr
 import Octo.Model.SsConfig
 import Octo.Model.Vmess
 import Octo.Model.Trojan
+import Octo.Model.Socks5
 import Octo.Crypto.Real
 import Std.Data.HashMap
 /-!
@@ -252,6 +253,26 @@ def step (st : St) (toks : List String) : St × String :=
     match unhexOrDash h with
     | some b => (st, showRes (fun (p : Addr × Bytes) => s!"{showAddr p.1} rest={hexOrDash p.2}") (VmessAddr.read utf8Ok b))
     | none => (st, "bad-op")
+  | ["s5.dec", kind, h] =>
+    match unhexOrDash h with
+    | none => (st, "bad-op")
+    | some b =>
+      if kind == "ireq" then
+        (st, showRes (fun (p : Bytes × Bytes) => s!"methods={hexOrDash p.1} rest={hexOrDash p.2}") (Socks5.decodeInitialRequest b))
+      else if kind == "creq" then
+        (st, showRes (fun (p : Nat × Addr × Bytes) => s!"cmd={p.1} {showAddr p.2.1} rest={hexOrDash p.2.2}") (Socks5.decodeCommandRequest b))
+      else if kind == "iresp" then
+        (st, showRes (fun (p : UInt8 × Bytes) => s!"method={p.1.toNat} rest={hexOrDash p.2}") (Socks5.decodeInitialResponse b))
+      else if kind == "cresp" then
+        (st, showRes (fun (p : Nat × Addr × Bytes) => s!"status={p.1} {showAddr p.2.1} rest={hexOrDash p.2.2}") (Socks5.decodeCommandResponse b))
+      else if kind == "udp" then
+        let c := Socks5.udpDecode b
+        (st, (match c.res with
+          | .ok i => s!"ok {(i.addr.map showAddr).getD "-"} data={hexOrDash i.data}"
+          | .more => "more"
+          | .err => "err"
+          | .panic => "panic") ++ s!" rest={hexOrDash c.buf}")
+      else (st, "bad-op")
   | "vm.client" :: name :: rest =>
     match (kv rest "uuid").bind parseUuid, kv rest "cipher", kv rest "cmd", (kv rest "addr").bind parseAddr with
     | some u, some ci, some cmd, some a =>
